@@ -266,6 +266,22 @@ def check_property(prop, tier, seed):
     state_files = []
     memclass = prop in plan.MEMORY_CLASS
 
+    special = [l for l in legs if l.get("kind") == "probes"]
+    legs = [l for l in legs if l.get("kind") != "probes"]
+    for l in special:
+        import probes
+        res = probes.run(prop, tier, seed, workdir, REPLAYS)
+        violations += res["violations"]
+        inconclusive += res["inconclusive"]
+        notes += res["notes"]
+        for k, v in res["agg"].items():
+            if isinstance(v, (int, float)) and not k.startswith("x_"):
+                agg[k] = agg.get(k, 0) + v
+            elif k == "samples":
+                agg["samples"] += v
+            else:
+                agg[k] = v
+        agg["legs"].append({"name": "probe-matrix", "variant": "rustc + miri", "shards": 1, "events": res["events"], "nonvac": res["agg"]["nonvac"]})
     all_results = run_all_legs(prop, tier, seed, legs, workdir)
     for li, leg in enumerate(legs):
         lt0 = time.time()
@@ -399,7 +415,7 @@ def check_property(prop, tier, seed):
             "evaluations": max(1, int(agg["evals"])),
             "distinct_nontrivial": int(distinct),
             "rule": plan.RULE.get(prop, plan.DEFAULT_RULE),
-            "samples": agg["samples"][:3] or ["<no sample recorded>"],
+            "samples": agg["samples"][:5] or ["<no sample recorded>"],
             "explanation": plan.EXPLANATION.get(prop, ""),
             "nonvacuous_evaluations": int(agg["nonvac"]),
             "events_executed": int(agg["events"]),
